@@ -51,6 +51,7 @@ type Script struct {
 	Log    []ReadEvent
 	Budget bool // set when MaxBytes was exceeded
 	failed bool
+	short  bool // the previous main-stream read was short: the next read continues it (io.ReadFull), even if it asks for 1 byte
 }
 
 // ErrBudget is returned once the logical budget is exhausted.
@@ -67,7 +68,7 @@ func (s *Script) log(e ReadEvent) {
 }
 
 func (s *Script) Read(p []byte) (int, error) {
-	if s.ProbeSide && len(p) == 1 {
+	if s.ProbeSide && len(p) == 1 && !s.short {
 		p[0] = 0
 		s.log(ReadEvent{Want: 1, Off: -1, N: 1, Probe: true})
 		return 1, nil
@@ -99,6 +100,7 @@ func (s *Script) Read(p []byte) (int, error) {
 			k := len(p) / 2
 			s.fill(p[:k])
 			ev.N = k
+			s.short = k > 0 && s.Fault == FaultShortThenErr
 			if s.Fault == FaultEOFPartial {
 				ev.Err = io.EOF
 			}
@@ -112,6 +114,7 @@ func (s *Script) Read(p []byte) (int, error) {
 	}
 	n := s.fill(p)
 	ev.N = n
+	s.short = n > 0 && n < len(p)
 	if n < len(p) {
 		ev.Err = io.EOF
 		if n > 0 {
